@@ -202,6 +202,33 @@ func checkC20(c *Ctx) {
 			}
 		}
 	}
+	// R20b selector parse width = width of the selector's result type
+	r.Rule("R20b", "example selectors parse examples at the width of their result type", 2)
+	if len(ex.Variants) > 0 {
+		if _, f, err := ParseUnit(ex.Variants[0].Units[0]); err == nil {
+			for _, d := range f.Decls {
+				fd, ok := d.(*ast.FuncDecl)
+				if !ok || fd.Body == nil || !strings.HasPrefix(fd.Name.Name, "select") || fd.Type.Results == nil {
+					continue
+				}
+				ret := types.ExprString(fd.Type.Results.List[0].Type)
+				want := map[string]string{"int64": "64", "int32": "32", "float64": "64", "float32": "32"}[ret]
+				ast.Inspect(fd.Body, func(n ast.Node) bool {
+					call, ok := n.(*ast.CallExpr)
+					if !ok {
+						return true
+					}
+					fn := types.ExprString(call.Fun)
+					if (fn == "strconv.ParseInt" || fn == "strconv.ParseUint" || fn == "strconv.ParseFloat") && want != "" {
+						got := types.ExprString(call.Args[len(call.Args)-1])
+						r.Check(got == want, "R20b", fd.Name.Name+" parses examples with bit size "+want, c.P.Pos(c.P.Decls[mock.Fn].Pos()),
+							fmt.Sprintf("%s returns %s but parses examples with %s(…, %s): examples outside the narrower range are silently replaced by the default", fd.Name.Name, ret, fn, got))
+					}
+					return true
+				})
+			}
+		}
+	}
 	r.Check(unq == "", "R20d", "example table entries are printed with strconv.Quote", c.P.Pos(c.P.Decls[mock.Fn].Pos()), "an example value or key is printed between hand-written quotes: "+unq)
 	same := strings.Join(sortedKeys(tableKeys), " | ") == strings.Join(sortedKeys(lookupKeys), " | ")
 	r.CheckD(same && len(lookupKeys) > 0, "R20e", "fieldExamples keys and selector lookup keys are spelled by the same expression", c.P.Pos(c.P.Decls[mock.Fn].Pos()),
